@@ -12,12 +12,13 @@ Definition str := list Z.
 Inductive kind :=
 | KName | KConst | KNegConst | KOr | KAnd | KNot | KCompare | KBitOr | KBitXor | KBitAnd | KLShift | KRShift | KAdd | KSub
 | KMult | KDiv | KFloorDiv | KMod | KUSub | KUAdd | KInvert | KPow | KAttribute | KCall | KSubscript | KIfExp | KLambda
-| KTuple | KList | KIdxTuple | KStarArg | KStarElt | KKeyword | KSlice | KJoined | KFormatted.
+| KTuple | KList | KIdxTuple | KStarArg | KStarElt | KKeyword | KSlice | KJoined | KFormatted
+| KOther.      (* dict / set displays, generator expressions: known to the marking model (Model/C04Ext.v) only, not to the printer / parser *)
 
 Definition all_kinds : list kind :=
   [KName; KConst; KNegConst; KOr; KAnd; KNot; KCompare; KBitOr; KBitXor; KBitAnd; KLShift; KRShift; KAdd; KSub;
    KMult; KDiv; KFloorDiv; KMod; KUSub; KUAdd; KInvert; KPow; KAttribute; KCall; KSubscript; KIfExp; KLambda;
-   KTuple; KList; KIdxTuple; KStarArg; KStarElt; KKeyword; KSlice; KJoined; KFormatted].
+   KTuple; KList; KIdxTuple; KStarArg; KStarElt; KKeyword; KSlice; KJoined; KFormatted; KOther].
 Definition all_pos : list nat := [0; 1; 2].
 
 Definition kind_idx (k : kind) : nat :=
@@ -26,7 +27,7 @@ Definition kind_idx (k : kind) : nat :=
   | KBitAnd => 9 | KLShift => 10 | KRShift => 11 | KAdd => 12 | KSub => 13 | KMult => 14 | KDiv => 15 | KFloorDiv => 16
   | KMod => 17 | KUSub => 18 | KUAdd => 19 | KInvert => 20 | KPow => 21 | KAttribute => 22 | KCall => 23 | KSubscript => 24
   | KIfExp => 25 | KLambda => 26 | KTuple => 27 | KList => 28 | KIdxTuple => 29 | KStarArg => 30 | KStarElt => 31
-  | KKeyword => 32 | KSlice => 33 | KJoined => 34 | KFormatted => 35
+  | KKeyword => 32 | KSlice => 33 | KJoined => 34 | KFormatted => 35 | KOther => 36
   end.
 Definition kind_eqb (a b : kind) : bool := Nat.eqb (kind_idx a) (kind_idx b).
 
@@ -47,13 +48,18 @@ Inductive label :=
 | LKeyword (name : option str)          (* name=value / **value *)
 | LSlice (lo hi st : bool)              (* which of lower:upper:step are present (children in that order) *)
 | LJoined (lits : list str)             (* f-string: n+1 literal segments around n FormattedValue children *)
-| LFormatted (conv : option Z) (spec : option str).   (* {value!conv:spec} *)
+| LFormatted (conv : option Z) (spec : option str)    (* {value!conv:spec} *)
+(* labels of the marking model only (kind KOther; never well-formed for the printer / parser): *)
+| LDict                                 (* {k: v, ...}: children = the keys followed by the values *)
+| LSet                                  (* {a, b, ...} *)
+| LGen (clauses : list (list str * nat)). (* (elt for targets in iter if c1 if c2 ... for ...): per clause the target names and the number of
+                                           conditions; children = per clause the iterable followed by its conditions, then the element *)
 
 Definition kind_of (l : label) : kind :=
   match l with
   | LName _ => KName | LConst _ => KConst | LNegConst _ => KNegConst | LOp k => k | LCompare _ => KCompare
   | LLambda _ => KLambda | LAttribute _ => KAttribute | LKeyword _ => KKeyword | LSlice _ _ _ => KSlice
-  | LJoined _ => KJoined | LFormatted _ _ => KFormatted
+  | LJoined _ => KJoined | LFormatted _ _ => KFormatted | LDict | LSet | LGen _ => KOther
   end.
 
 Inductive expr := Node (l : label) (cs : list expr).
@@ -191,6 +197,7 @@ Definition layout (st : style) (l : label) (ws : list (list tok)) : list tok :=
   | LSlice lo hi stp => slice_layout lo hi stp ws
   | LJoined lits => match lits with [] => [] | l0 :: ls => TFBegin :: TFLit l0 :: fparts ws ls ++ [TFEnd] end
   | LFormatted conv spec => TFOpen :: concat ws ++ [TFClose conv (if keep_spec st then spec else None)]
+  | LDict | LSet | LGen _ => []
   | LOp k =>
       if is_bool k then sep_by (TBool k) ws
       else if is_unary k then TUn k :: concat ws
@@ -284,6 +291,7 @@ Definition arity_ok (l : label) (n : nat) : bool :=
   | LLambda _ | LAttribute _ | LKeyword _ | LFormatted _ _ => n =? 1
   | LSlice lo hi st => n =? count_true lo hi st
   | LJoined lits => length lits =? S n
+  | LDict | LSet | LGen _ => false
   | LOp k =>
       if is_bool k then 2 <=? n
       else if is_unary k then n =? 1
@@ -336,6 +344,8 @@ Definition label_eqb (a b : label) : bool :=
   | LKeyword x, LKeyword y => opt_eqb str_eqb x y
   | LSlice a1 a2 a3, LSlice b1 b2 b3 => Bool.eqb a1 b1 && Bool.eqb a2 b2 && Bool.eqb a3 b3
   | LFormatted c1 s1, LFormatted c2 s2 => opt_eqb Z.eqb c1 c2 && opt_eqb str_eqb s1 s2
+  | LDict, LDict | LSet, LSet => true
+  | LGen c1, LGen c2 => list_eqb (fun a b => list_eqb str_eqb (fst a) (fst b) && Nat.eqb (snd a) (snd b)) c1 c2
   | _, _ => false
   end.
 
